@@ -142,6 +142,43 @@ def s6():
                     yield "fun-head", pre + "def f(%s)%s%s%s\n" % (params, ret, rs, body)
 
 
+def other_check_sources(tier):
+    """the base programs of every other check's space: a crash anywhere is reported here"""
+    from .. import gen_c02
+    from . import c05, c06, c07, c08, c09, c12, c13, c15, c16, c17, c20
+    quick = tier == "quick"
+    seen = set()
+
+    def emit(src):
+        if src not in seen:
+            seen.add(src)
+            return True
+        return False
+
+    for c in gen_c02.all_families("quick"):
+        if emit(c["src"]):
+            yield c["src"]
+    for mod in (c16, c17):
+        for c in mod.cases("quick", 0):
+            if emit(c["src"]):
+                yield c["src"]
+    for _, src in c15.base_programs("quick"):
+        if emit(src):
+            yield src
+    for _, src in c12.order_programs():
+        if emit(src):
+            yield src
+    for name, files, ok, faulty in c13.projects("quick"):
+        yield [files[p] for p in sorted(files)]
+    for mod, step in ((c05, 5), (c06, 3), (c07, 3), (c08, 6), (c09, 2)):
+        for i, c in enumerate(mod.cases("quick", 0)):
+            if i % (step if quick else 1) == 0 and emit(c["src"]):
+                yield c["src"]
+    for tl in list(c20.EXPR)[:6]:
+        for ul in c20.TARGETS[:6]:
+            yield c20.e2e_program(tl, ul)[1]
+
+
 def cases(tier, seed):
     quick = tier == "quick"
     n = 0
@@ -182,6 +219,7 @@ def cases(tier, seed):
     yield from batch("c03.S5.graphs", (src for _, src in s5()), 60)
     yield from batch("c03.S6.slots", (src for _, src in s6()), 150)
     yield from batch("c03.pool", (c["src"] for c in gen_prog.pool("quick")), 120)
+    yield from batch("c03.pool.other-checks", other_check_sources(tier), 150)
 
 
 def classify(r):
